@@ -1,12 +1,15 @@
 #!/usr/bin/env python3
-"""record.py <sensitivity-log>...  - fold the tables printed by selftest/sensitivity.sh into
+"""record.py [<sensitivity-log>...]  - fold the tables printed by selftest/sensitivity.sh into
 seeded/<id>/meta.json (detected_by) and selftest/RESULTS.md (one row per planted / seeded change and check).
 Later logs override earlier ones for the same (change, check)."""
 import json, os, re, sys
 
 rows = {}  # (name, prop) -> (tests, exit, first)
 order = []
-for path in sys.argv[1:]:
+paths = sys.argv[1:]
+if not paths:  # no arguments: the logs named in selftest/logs/ORDER, oldest first (later logs override earlier ones)
+    paths = ['/verif/selftest/logs/' + l.strip() for l in open('/verif/selftest/logs/ORDER') if l.strip()]
+for path in paths:
     for line in open(path, errors='replace'):
         line = line.rstrip('\n')
         if line.startswith('planted ') or not line.strip() or line.startswith('WARNING'):
